@@ -9,8 +9,8 @@ LEVEL = "model_checking"
 
 def configs(ctx):
     must = [(3, 3, 3, 3), (2, 2, 1, 1), (1, 1, 2, 2), (3, 2, 1, 3), (1, 3, 3, 1), (2, 3, 2, 3), (1, 2, 1, 2), (1, 2, 3, 3), (1, 1, 2, 3),
-            (3, 3, 1, 2), (2, 0, 2, 2), (2, 2, 1, 0), (1, 0, 1, 0)]
-    allc = list(itertools.product([1, 2, 3], repeat=4)) + [(2, 0, 2, 2), (2, 2, 1, 0), (1, 0, 1, 0), (3, 0, 1, 1), (0, 0, 2, 2)]
+            (3, 3, 1, 2), (2, 0, 2, 2), (2, 2, 1, 0), (1, 0, 1, 0), (0, 0, 2, 2), (0, 2, 1, 1), (2, 2, 0, 0)]
+    allc = list(itertools.product([1, 2, 3], repeat=4)) + [(2, 0, 2, 2), (2, 2, 1, 0), (1, 0, 1, 0), (3, 0, 1, 1), (0, 0, 2, 2), (0, 2, 1, 1), (2, 2, 0, 0), (0, 3, 0, 3)]
     if ctx.quick:
         rnd = random.Random(ctx.seed)
         rest = [c for c in allc if c not in must]
